@@ -53,11 +53,26 @@ fn relations(sp: &Sprite, ase: &asefile::AsepriteFile) -> Result<u64, Violation>
                 return Err(Violation::new("tilemap-image-dim", format!("tilemap image {}x{} for canvas {}x{}", img.width(), img.height(), ase.width(), ase.height())));
             }
             let ts = tm.tileset();
+            // where tile 0 has visible pixels the relation is only demanded INSIDE the stored tile area (outside it the
+            // lookup answers "empty tile 0" and nothing is drawn: the statement presupposes an empty tile 0 there)
+            let (sw, sh) = match &cel.content {
+                CelContentM::Tilemap { w, h, .. } => (*w as i64, *h as i64),
+                _ => (0, 0),
+            };
+            let (ox, oy) = tm.tile_offsets();
+            let tile0_blank = {
+                let t0 = ts.tile_image(0);
+                t0.pixels().all(|p| p.0[3] == 0)
+            };
             // cache the images of the tiles that are looked up (tile_image is linear in the tileset size)
             let mut tiles: std::collections::HashMap<u32, image::RgbaImage> = std::collections::HashMap::new();
             for y in 0..img.height() {
                 for x in 0..img.width() {
                     let id = tm.tile(x / tw, y / th).id();
+                    let (sx, sy) = ((x / tw) as i64 - ox as i64, (y / th) as i64 - oy as i64);
+                    if !tile0_blank && (sx < 0 || sy < 0 || sx >= sw || sy >= sh) {
+                        continue;
+                    }
                     if id >= ts.tile_count() {
                         return Err(Violation::new("tile-id-range", format!("tile({},{}) reports id {} >= tile count {}", x / tw, y / th, id, ts.tile_count())));
                     }
@@ -95,6 +110,7 @@ pub fn run(ctx: &Ctx) -> i32 {
         cfg.links = false;
         cfg.big = true;
         cfg.bg_tilemap = true;
+        cfg.nonblank_tile0 = i % 3 == 1;
         cfg.max_layers = 4;
         cfg.max_frames = 3;
         cfg.max_w = 40;
@@ -143,7 +159,53 @@ pub fn run(ctx: &Ctx) -> i32 {
                 }
             }
         }
-        let _ = (compile_with, encode);
+        // the same sprite with every tileset recoloured (same sizes, same ids), loaded and checked on the same thread
+        // right after the first one was dropped: nothing may be carried over from one loaded file to the next
+        if res.violations.is_empty() && ntm > 0 && i % 2 == 0 {
+            let mut sp2 = sp.clone();
+            for ts in sp2.tilesets.iter_mut() {
+                let area = ts.tw as usize * ts.th as usize * sp2.fmt.bpp();
+                match sp2.fmt {
+                    Fmt::Indexed => {
+                        // permute the palette indices that the tiles use (tile 0 stays as it is)
+                        let mut used: Vec<u8> = ts.pixels[area..].to_vec();
+                        used.sort_unstable();
+                        used.dedup();
+                        if used.len() > 1 {
+                            let map: std::collections::HashMap<u8, u8> = used.iter().cloned().zip(used.iter().cloned().cycle().skip(1)).collect();
+                            for p in ts.pixels[area..].iter_mut() {
+                                *p = map[p];
+                            }
+                        }
+                    }
+                    Fmt::Gray => {
+                        for p in ts.pixels[area..].chunks_mut(2) {
+                            p[0] = p[0].wrapping_add(101);
+                        }
+                    }
+                    Fmt::Rgba => {
+                        for p in ts.pixels[area..].chunks_mut(4) {
+                            p.swap(0, 2);
+                            p[1] = p[1].wrapping_add(77);
+                        }
+                    }
+                }
+            }
+            let bytes2 = encode(&compile_with(&sp2, &mut rng, &v, &palprog)).0;
+            match load(&bytes2) {
+                Err(e) => res.violations.push(Violation::new(format!("load-failed|recoloured|{}", err_sig(&e)), format!("recoloured sprite failed to load: {}", e)).with_input(&bytes2)),
+                Ok(ase2) => match relations(&sp2, &ase2) {
+                    Ok(k) => {
+                        res.leaves += k;
+                        res.count("relation_pixels_checked_second_load", k);
+                    }
+                    Err(v) => {
+                        res.outcomes = vec!["violation".into()];
+                        res.violations.push(Violation { sig: format!("relation-after-previous-load|{}", v.sig), ..v }.with_input(&bytes2).with_extra(json!({"model": sprite_summary(&sp2), "note": "second sprite loaded on the same thread after a sprite of identical shape"})));
+                    }
+                },
+            }
+        }
         if i == 0 {
             res.sample = Some(json!({"case": i, "model": sprite_summary(&sp)}));
         }
